@@ -18,7 +18,7 @@ SPEC = {
              "decoded into ammo objects that instances have released - by a long file or by passes over a short one, 1-4 instances, real "
              "grpc gun and provider, real phout; the i-th sample (one instance; multiset otherwise) must be {tag of line i mod n or "
              "__EMPTY__, documented code}; non-trivial = tagged and untagged lines mixed and shot beyond the read-ahead. "
-             "TestGRPCUntaggedWitness: fixed witness of finding grpc-gun-untagged-sample-tag-empty. TestGRPCScenarioTags: generated grpc/scenario descriptions with 2-4 weighted scenarios whose request lists (1-3 steps "
+             "TestGRPCUntaggedWitness: fixed witness of finding grpc-gun-untagged-sample-tag-empty (repaired), same oracle. TestGRPCScenarioTags: generated grpc/scenario descriptions with 2-4 weighted scenarios whose request lists (1-3 steps "
              "with multiplicities) draw on the same 1-4 `calls:` (tags may coincide, some calls answered with a non-OK status) plus one "
              "marker call of their own at a random position; in half of the descriptions the calls carry an assert/response postprocessor "
              "(status_code equal to / different from the documented code of the status the target answers, payload word the answer "
